@@ -113,7 +113,7 @@ def build(spec: Spec):
         entries.append((f"{spec.name}_all", u, "h_all(src)"))
     body = (f'#[forbid(unsafe_code)]\n#[allow(non_camel_case_types, non_snake_case, unused, clippy::all)]\npub mod g {{\n    include!("{dst}");\n}}\n'
             + "#[allow(unused, non_snake_case)]\npub mod user {\n" + spec.user_rs + "\n}\n"
-            + "pub fn fake_format(_a: std::fmt::Arguments<'_>) -> String { String::new() }\n"
+            + "pub fn fake_format(_a: std::fmt::Arguments<'_>) -> String { String::with_capacity(1) }\n"
             + ref + "\n".join(bodies))
     d = crates.assemble(spec.name, body, entries)
     return d, entries, info
